@@ -177,9 +177,8 @@ TNoWriter ==
 
 
 
-\* IndexWriter::merge on UNCOMMITTED segments uses the commit opstamp as target and the merged
-\* entry inherits one source's delete cursor (recorded finding F6: the next commit may lose
-\* documents; the dedicated reproduction run is rejected at that commit)
+\* IndexWriter::merge on UNCOMMITTED segments: content-neutral like every merge (finding F6, repaired:
+\* it used the commit opstamp as target and the next commit lost documents)
 TMergeUncommitted ==
   /\ Ev.ev = "merge_uncommitted" /\ wopen
   /\ UNCHANGED <<pend, commd, lo, metaop, payload, wopen, wCreated, dirty, sorted, kf>>
